@@ -64,7 +64,23 @@ fn programs(thorough: bool) -> Vec<Prog> {
     }
     // 4 rep movs
     {
-        let mut c = vec![label("start"), mov(r16("si"), imm(0)), mov(r16("di"), imm(16)), mov(r16("cx"), imm(3)), strop(Some(Rep::Rep), StrOp::Movs, W::B), mov(r16("dx"), imm(9))];
+        // plain REP; REPE CMPS over equal elements and REPNE SCAS without a hit both end because the count runs out
+        let mut c = vec![
+            label("start"),
+            mov(r16("si"), imm(0)),
+            mov(r16("di"), imm(16)),
+            mov(r16("cx"), imm(3)),
+            strop(Some(Rep::Rep), StrOp::Movs, W::B),
+            mov(r16("si"), imm(0)),
+            mov(r16("di"), imm(16)),
+            mov(r16("cx"), imm(3)),
+            strop(Some(Rep::Repe), StrOp::Cmps, W::B),
+            mov(r16("di"), imm(0)),
+            mov(r16("cx"), imm(2)),
+            mov(r8("al"), imm(0x7E)),
+            strop(Some(Rep::Repne), StrOp::Scas, W::B),
+            mov(r16("dx"), imm(9)),
+        ];
         finals(&mut c);
         add("rep", c, none(), true);
     }
